@@ -73,6 +73,10 @@ def gen(rng, tier):
     elif r < 0.4:
         fault = {"node": rng.randrange(k), "mode": "error", "kind": rng.choice(["fs.tmpname", "fs.write", "fs.unlink", "fs.open"]),
                  "nth": rng.choice([0, 0, 1])}
+    elif r < 0.56 and r >= 0.48:
+        # the user's transform callback of one importer raises on its k-th call; the program catches it (no infrastructure
+        # fault: nothing excuses a temp file left behind by this importer)
+        fault = {"node": rng.randrange(k), "mode": "callback", "at": rng.randint(1, 6)}
     elif r < 0.48:
         # a sibling dies in the middle of a write to its temp file (torn write)
         fault = {"node": rng.randrange(k), "mode": "torn", "kind": "fs.write", "nth": rng.choice([0, 0, 1, 2])}
@@ -203,7 +207,10 @@ def run(case):
 
         def req1(i):
             req = _req(case, i, nodes[i])
-            if fault and fault["node"] == i and fault.get("phase", 1) == 1:
+            if fault and fault["node"] == i and fault["mode"] == "callback":
+                req["transform"] = {"kind": "identity", "raise_once_at": fault["at"]}
+                req["src"] = "cb%d" % i
+            elif fault and fault["node"] == i and fault.get("phase", 1) == 1:
                 if "frac" in fault:
                     req["faults"] = [{"at": int(fault["frac"] * sol[i]["points"]), "mode": fault["mode"]}]
                 else:
@@ -225,7 +232,7 @@ def run(case):
                 if r is None:
                     continue
                 if not r["ok"]:
-                    if i == faulty and (r.get("injected") or phase == 2):
+                    if i == faulty and (r.get("injected") or phase == 2 or (fault["mode"] == "callback" and r.get("exc") == "SourceError")):
                         probes["faulted_node_failed"] = probes.get("faulted_node_failed", 0) + 1
                         continue
                     V.append(viol("C20.independent", "%s %d of %d failed although it was not faulted: %s %s (schedule %s)" % (
@@ -287,6 +294,9 @@ def run(case):
         excused = set()
         for i in range(len(nodes)):
             bad_run = any(r is not None and (not r["ok"] or r.get("fired")) for r in (result[i], result2[i]))
+            if bad_run and fault and fault["mode"] == "callback" and i == faulty and state[i] != "dead":
+                probes["importer_failed_in_user_callback"] = 1
+                continue  # its temp files are judged like anybody's
             if state[i] == "dead" or bad_run:
                 excused |= created[i]
                 if pending[i]:
